@@ -234,7 +234,7 @@ def render(doc: dict, fmt: dict | None = None) -> bytes:
     nl = "\r\n" if fmt.get("newline") == "crlf" else "\n"
     L = []
     if fmt.get("lead_comment"):
-        L.append("// generated file")
+        L.append("// generated file" + ("; tags: #TITLE:x; #NOTES: none, really" if fmt.get("lead_comment") == "sep" else ""))
     m = doc["meta"]
     order = ["TITLE", "SUBTITLE", "ARTIST", "TITLETRANSLIT", "SUBTITLETRANSLIT", "ARTISTTRANSLIT", "GENRE", "CREDIT", "BANNER",
              "BACKGROUND", "LYRICSPATH", "CDTITLE", "MUSIC"]
@@ -264,13 +264,21 @@ def render(doc: dict, fmt: dict | None = None) -> bytes:
         L.append(f"{ind}{c['diff']}:")
         L.append(f"{ind}{c['meter']}:")
         L.append(f"{ind}{c['radar']}:")
+        cs = fmt.get("comma_style", "own")  # the measure separator: on its own line | after the last row | before the next row
+        nm = len(c["measures"])
         for mi, rows in enumerate(c["measures"]):
-            if mi > 0:
+            if mi > 0 and cs == "own":
                 L.append("," + (f"  // measure {mi + 1}" if fmt.get("measure_comments") else ""))
             elif fmt.get("measure_comments"):
-                L.append("  // measure 1")
+                L.append(f"  // measure {mi + 1}")
             for ri, row in enumerate(rows):
-                L.append(row + (" " if fmt.get("row_trailing_space") and ri % 2 else ""))
+                tail = " " if fmt.get("row_trailing_space") and ri % 2 else ""
+                if fmt.get("row_comments") and ri % 4 == 0:
+                    # a comment after a row, on the row's own line; "sep": one that contains the format's separators
+                    tail = f"  // beat {ri * 4 // max(len(rows), 1) + 1}" + (" (a, b; c: d #e)" if fmt.get("row_comments") == "sep" else "")
+                pre = "," if (cs == "before_row" and mi > 0 and ri == 0) else ""
+                post = "," if (cs == "after_row" and mi < nm - 1 and ri == len(rows) - 1) else ""
+                L.append(pre + row + post + tail)
                 if fmt.get("blank_rows") and ri % 3 == 1:
                     L.append("  " if fmt.get("space_blank") else "")
         L.append(";")
